@@ -272,7 +272,7 @@ impl Check for C16Check {
         "C16"
     }
     fn rule(&self) -> String {
-        "Phase small-lists: every list of length 0..4 over six item kinds (number, text, symbol, pair keyed by a symbol, pair keyed by a number, nested list holding a keyed pair), distinct keys; phase random: lists of up to 64 items with adversarial raw 64-bit symbol keys (all equal modulo the length, congruent to length-1, minimum and maximum u64, ascending, descending, interleaved extremes, random), and concatenations of two or three such lists; phase size-sweep: keyed lists (all keyed, every third item unkeyed, split into a concatenation of two lists) of every size in 8..300 (thorough ..1000) around powers of two and round numbers under the seven key patterns. \
+        "Phase small-lists: every list of length 0..4 over six item kinds (number, text, symbol, pair keyed by a symbol, pair keyed by a number, nested list holding a keyed pair), distinct keys; phase random: lists of up to 64 items with adversarial raw 64-bit symbol keys (all equal modulo the length, congruent to length-1, minimum and maximum u64, ascending, descending, interleaved extremes, random), and concatenations of two or three such lists; phase key-paths: look-ups by a path of two symbols (`container <~ :outer.inner`, and the two accesses one after the other) where the outer key's value is a list, a concatenation of lists (left- and right-nested), a concatenation of pairs or a list mixing keyed and unkeyed items, the inner key first / in the middle / last / absent; phase size-sweep: keyed lists (all keyed, every third item unkeyed, split into a concatenation of two lists) of every size in 8..300 (thorough ..1000) around powers of two and round numbers under the seven key patterns. \
          Each container is built through the data API on both data implementations, into a fresh object and into one that already holds 1..7 unrelated values. Oracle (a plain Vec model): get_list_len = n; get_list_item(k) reads back item k for 0<=k<n and reports no item (never an error) past the end; get_list_item_iter yields the items in insertion order; get_list_item_with_symbol returns the value of the pair keyed by each present symbol and 'absent' (never an error) for absent symbols including ones colliding modulo the length; \
          the Access and Apply instructions with every index in {-1, 0, n-1, n, n+3} and every present / absent symbol give the same answers (unit for absent), also on concatenations. \
          Non-trivial = at least two symbol keys plus at least one unkeyed item; distinct = distinct containers."
@@ -287,6 +287,7 @@ impl Check for C16Check {
             Phase::exhaustive("small-lists", 1 + 6 + 36 + 216 + 1296).with_chunk(32),
             Phase::random("random-lists", tier.pick(80_000, 1_000_000), 160).with_min_tape(16).with_chunk(256),
             Phase::exhaustive("size-sweep", sizes * 7 * 3).with_chunk(1).with_deadline_ms(60_000),
+            Phase::exhaustive("key-paths", 2 * 3 * 5 * 3 * 2).with_chunk(4),
         ]
     }
     fn run(&self, _tier: Tier, phase: usize, input: &Input, ctx: &mut CaseCtx) {
@@ -313,6 +314,79 @@ impl Check for C16Check {
                 }
                 ctx.class("small-list");
                 judge(&V::List(items), &[0, 1, 2, 7 + 4, 3 + 8, 99, u64::MAX], ctx);
+            }
+            (3, Input::Index(i)) => {
+                // a look-up by a path of two symbols (`container <~ :outer.inner`): the outer key's value is itself a container
+                // of each kind, the inner key sits first / in the middle / last in it or is absent
+                let mut r = *i;
+                let present = r % 2 == 0;
+                r /= 2;
+                let inner_pos = (r % 3) as usize;
+                r /= 3;
+                let inner_kind = r % 5;
+                r /= 5;
+                let outer_pos = (r % 3) as usize;
+                r /= 3;
+                let outer_concat = r % 2 == 1;
+                let ik = |k: usize| 9000 + k as u64 * 13;
+                let inner_items: Vec<V> = (0..3).map(|k| pair(V::Sym(ik(k)), V::Int(500 + k as i32))).collect();
+                let cat = |a: V, b: V| V::Concat(Box::new(a), Box::new(b));
+                let inner = match inner_kind {
+                    0 => V::List(inner_items.clone()),
+                    1 => cat(V::List(inner_items[..1].to_vec()), V::List(inner_items[1..].to_vec())),
+                    2 => cat(V::List(inner_items[..1].to_vec()), cat(V::List(inner_items[1..2].to_vec()), V::List(inner_items[2..].to_vec()))),
+                    3 => cat(cat(inner_items[0].clone(), inner_items[1].clone()), inner_items[2].clone()),
+                    _ => V::List(vec![V::Int(7), inner_items[0].clone(), V::Int(8), inner_items[1].clone(), inner_items[2].clone()]),
+                };
+                let ok = |k: usize| 700 + k as u64 * 17;
+                let outer_items: Vec<V> = (0..3).map(|k| if k == outer_pos { pair(V::Sym(ok(k)), inner.clone()) } else { pair(V::Sym(ok(k)), V::Int(k as i32)) }).collect();
+                let container = if outer_concat { cat(V::List(outer_items[..2].to_vec()), V::List(outer_items[2..].to_vec())) } else { V::List(outer_items) };
+                let inner_key = if present { ik(inner_pos) } else { 9999 };
+                let path = V::SymList(vec![crate::model::value::SymPart::Sym(ok(outer_pos)), crate::model::value::SymPart::Sym(inner_key)]);
+                let want = if present { V::Int(500 + inner_pos as i32) } else { V::Unit };
+                ctx.render(|| format!("{} <~ {} should be {}", container, path, want));
+                ctx.class("key-path");
+                ctx.nontrivial(fnv(format!("kp{}", i).as_bytes()));
+                for imp in Impl::BOTH {
+                    // the path applied to the container; and, on a concatenation (which apply does not take), the two accesses one after the other
+                    let steps: Vec<(Instruction, V, V)> = if outer_concat { vec![] } else { vec![(Instruction::Apply, container.clone(), path.clone())] };
+                    for (ins, l, rr) in steps {
+                        ctx.sub_evals += 1;
+                        let out = match imp {
+                            Impl::Simple => call(&mut new_simple(), ins, &l, Some(&rr)),
+                            Impl::Basic => call(&mut new_basic(), ins, &l, Some(&rr)),
+                        };
+                        if let Ok(o) = out {
+                            match (&o.panicked, &o.result) {
+                                (Some(loc), _) => ctx.fail(format!("panic@{}", loc), format!("{} <~ {} on {}", container, path, imp.name())),
+                                (_, Ok(v)) if same(v, &want) => {}
+                                (_, other) => ctx.fail(
+                                    format!("key-path-lookup-wrong:{}:inner-{}", if present { "present" } else { "absent" }, ["list", "concatenation", "right-nested-concatenation", "concatenation-of-pairs", "mixed-list"][inner_kind as usize]),
+                                    format!("{} <~ {} on {} gave {:?} instead of {}", container, path, imp.name(), other, want),
+                                ),
+                            }
+                        }
+                    }
+                    // step by step with Access: (container . outer) . inner
+                    ctx.sub_evals += 1;
+                    let two = |first: Result<crate::model::opcall::OpOutcome, String>| -> Option<V> { first.ok().and_then(|o| o.result.ok()) };
+                    let mid = match imp {
+                        Impl::Simple => two(call(&mut new_simple(), Instruction::Access, &container, Some(&V::Sym(ok(outer_pos))))),
+                        Impl::Basic => two(call(&mut new_basic(), Instruction::Access, &container, Some(&V::Sym(ok(outer_pos))))),
+                    };
+                    match mid {
+                        Some(m) if same(&m, &inner) => {
+                            let fin = match imp {
+                                Impl::Simple => two(call(&mut new_simple(), Instruction::Access, &inner, Some(&V::Sym(inner_key)))),
+                                Impl::Basic => two(call(&mut new_basic(), Instruction::Access, &inner, Some(&V::Sym(inner_key)))),
+                            };
+                            if !matches!(&fin, Some(v) if same(v, &want)) {
+                                ctx.fail("key-path-second-access-wrong".to_string(), format!("{} . {:x} on {} gave {:?} instead of {}", inner, inner_key, imp.name(), fin, want));
+                            }
+                        }
+                        other => ctx.fail("key-path-first-access-wrong".to_string(), format!("{} . {:x} on {} gave {:?} instead of {}", container, ok(outer_pos), imp.name(), other, inner)),
+                    }
+                }
             }
             (2, Input::Index(i)) => {
                 // keyed lists of every size around the usual thresholds, under every key pattern
